@@ -39,6 +39,16 @@ def int_list_def(name, xs):
     return "def %s : List Int := [%s]" % (name, ", ".join(str(x) for x in xs))
 
 
+def str_def(name, txt):
+    return 'def %s : String := "%s"' % (name, txt.replace("\\", "\\\\").replace('"', '\\"'))
+
+
+def _squash(body):
+    """whitespace-free text of a function body (field list of the reset functions: a field that is no longer
+    re-initialised — or a new one — changes the text)"""
+    return re.sub(r"\s+", "", strip_comments(body))
+
+
 def generate():
     items = []
     dep = strip_comments(resolve_ifs(DEP_CPP))
@@ -151,4 +161,9 @@ def generate():
     ecpp = strip_comments(resolve_ifs(EXEC_CPP))
     items.append(skel_def("skel_inplace_run", skeleton(function_body(ecpp, r"InplaceGraphExecutor::run\s*\(\s*GraphVertex"), [r"vertex->run"])))
     items.append(skel_def("skel_pool_run", skeleton(function_body(ecpp, r"ThreadPoolGraphExecutor::run\s*\(\s*GraphVertex"), [r"_executor\.submit", r"vertex->run"])))
+    # --- reset(): the exact statements (which fields are re-initialised)
+    items.append(str_def("resetTextDependency", _squash(function_body(dhpp, r"GraphDependency::reset\s*\("))))
+    items.append(str_def("resetTextVertex", _squash(function_body(vcpp, r"GraphVertex::reset\s*\("))))
+    items.append(str_def("resetTextData", _squash(dfn("reset"))))
+    items.append(str_def("resetTextGraph", _squash(function_body(gcpp, r"Graph::reset\s*\("))))
     emit("Anyflow", items)
